@@ -294,7 +294,7 @@ type Contract struct {
 	LoopAfter map[int][]*Clause
 	// `at call Callee [label] expr`: proved in the state just before every call of Callee made by
 	// the function itself (locals in scope)
-	AtCalls map[string][]*Clause
+	AtCalls   map[string][]*Clause
 	Asserts   []*Clause
 	Assumes   []*Clause // ensures-clauses taken on trust at call sites, never proved (listed as assumptions)
 	Observes  []*Observe
